@@ -156,3 +156,42 @@ pub fn root_degree_zero_panics<const B: usize, const L: usize>(nd: &mut Nd) {
     let _ = v.root(0);
     cov!(nd, "returned", true);
 }
+
+/// generic-base log / checked_log (and log10) on every (value, base) of a narrow width.  Compositional: the
+/// multipliers are replaced by their specification, exp2/log2 by exact models on the integer arguments that occur.
+pub fn log_narrow<const B: usize, const W: usize>(nd: &mut Nd) {
+    let m: u64 = (1u64 << B) - 1;
+    let v = (nd.u8() as u64) & m;
+    let b = if W == 2 { 10 } else { (nd.u8() as u64) & m };
+    // floor(log_b(v)) by repeated multiplication (v >= 1, b >= 2)
+    let mut want = 0usize;
+    let mut p = b;
+    let mut i = 0;
+    while i < B {
+        if b >= 2 && p <= v {
+            want += 1;
+            p *= b; // <= 2^16
+        }
+        i += 1;
+    }
+    let uv = Uint::<B, 1>::from_limbs([v]);
+    cov!(nd, "at-max", v == m && b >= 3);
+    cov!(nd, "exact-power", b >= 3 && want >= 2 && p == v * b);
+    match W {
+        0 => {
+            let ub = Uint::<B, 1>::from_limbs([b]);
+            chk!(nd, "C13.checked_log", uv.checked_log(ub) == if v == 0 || b < 2 { None } else { Some(want) });
+        }
+        1 => {
+            nd.assume(v != 0 && b >= 2);
+            let ub = Uint::<B, 1>::from_limbs([b]);
+            chk!(nd, "C13.log", uv.log(ub) == want);
+        }
+        _ => {
+            chk!(nd, "C13.checked_log10", uv.checked_log10() == if v == 0 { None } else { Some(want) });
+            if v != 0 {
+                chk!(nd, "C13.log10", uv.log10() == want);
+            }
+        }
+    }
+}
